@@ -236,33 +236,62 @@ theorem mem_localSpecs {a : Item} {s : Spec} :
   · rintro ⟨e, he, m, ⟨hm, hd⟩, rfl⟩; exact ⟨e, he, m, hm, hd, rfl⟩
   · rintro ⟨e, he, m, hm, hd, rfl⟩; exact ⟨e, he, m, ⟨hm, hd⟩, rfl⟩
 
+theorem bspecOK_iff {m : Modifier} :
+    bspecOK u m = true ↔
+      m.domain = 4 ∧ m.srcAttr ∈ buffAttrs ∧ u.buffs.any (·.tgtAttr == m.tgtAttr) = true := by
+  unfold bspecOK
+  simp only [Bool.and_eq_true, beq_iff_eq, List.contains_iff_mem, and_assoc]
+
+/-- A projected modifier of `(a, e)` is a target-domain modifier of `e` or, for a fleet-boost effect, a
+well-formed registered warfare-buff modifier. -/
+theorem mem_projMods {a : Item} {e : Effect} {m : Modifier} :
+    m ∈ projMods u d a e ↔
+      (m ∈ e.mods ∧ m.domain = 4) ∨ (e.isBuff = true ∧ m ∈ d.bspecs a.id e.id ∧ bspecOK u m = true) := by
+  unfold projMods
+  rw [List.mem_append]
+  refine or_congr (by simp [List.mem_filter]) ?_
+  cases hb : e.isBuff
+  · simp
+  · simp [List.mem_filter]
+
+theorem projMods_domain {a : Item} {e : Effect} {m : Modifier} (h : m ∈ projMods u d a e) : m.domain = 4 := by
+  rcases mem_projMods.1 h with h | h
+  · exact h.2
+  · exact (bspecOK_iff.1 h.2.2).1
+
 theorem mem_projSpecs {a : Item} {s : Spec} :
-    s ∈ projSpecs u cfg d a ↔ ∃ e ∈ running u d a, e.category = 2 ∧ ∃ t ∈ targetsOf cfg d a e,
-      ∃ m ∈ e.mods, m.domain = 4 ∧ s = ⟨a, e, m, some t⟩ := by
+    s ∈ projSpecs u cfg d a ↔ ∃ e ∈ running u d a, (e.category = 2 ∨ e.isBuff = true) ∧
+      ∃ t ∈ targetsOf cfg d a e, ∃ m ∈ projMods u d a e, s = ⟨a, e, m, some t⟩ := by
   unfold projSpecs
   simp only [List.mem_flatMap]
   constructor
   · rintro ⟨e, he, hs⟩
     split at hs
     · rename_i hc
-      simp only [List.mem_flatMap, List.mem_map, List.mem_filter, beq_iff_eq] at hs
-      obtain ⟨t, ht, m, ⟨hm, hd⟩, rfl⟩ := hs
-      exact ⟨e, he, by simpa using hc, t, ht, m, hm, hd, rfl⟩
+      simp only [List.mem_flatMap, List.mem_map] at hs
+      obtain ⟨t, ht, m, hm, rfl⟩ := hs
+      exact ⟨e, he, by simpa using hc, t, ht, m, hm, rfl⟩
     · cases hs
-  · rintro ⟨e, he, hc, t, ht, m, hm, hd, rfl⟩
+  · rintro ⟨e, he, hc, t, ht, m, hm, rfl⟩
     refine ⟨e, he, ?_⟩
     rw [if_pos (by simpa using hc)]
-    simp only [List.mem_flatMap, List.mem_map, List.mem_filter, beq_iff_eq]
-    exact ⟨t, ht, m, ⟨hm, hd⟩, rfl⟩
+    simp only [List.mem_flatMap, List.mem_map]
+    exact ⟨t, ht, m, hm, rfl⟩
 
-/-- Every registered spec is a modifier of an effect of the universe, carried by the item it is listed for. -/
+/-- Every registered spec is carried by the item it is listed for and belongs to one of its running effects
+(an effect of the universe); its modifier is one of the effect's own or — for a projected spec of a
+fleet-boost effect — a well-formed warfare-buff modifier. -/
 theorem spec_wf {a : Item} {s : Spec} (h : s ∈ localSpecs u d a ++ projSpecs u cfg d a) :
-    s.a = a ∧ s.e ∈ running u d a ∧ s.e ∈ u.effects ∧ s.m ∈ s.e.mods := by
+    s.a = a ∧ s.e ∈ running u d a ∧ s.e ∈ u.effects ∧
+      (s.m ∈ s.e.mods ∨ (s.e.isBuff = true ∧ bspecOK u s.m = true)) := by
   rcases List.mem_append.1 h with h | h
   · obtain ⟨e, he, m, hm, _, rfl⟩ := mem_localSpecs.1 h
-    exact ⟨rfl, he, typeEffects_mem (mem_running.1 he).1, hm⟩
-  · obtain ⟨e, he, _, t, _, m, hm, _, rfl⟩ := mem_projSpecs.1 h
-    exact ⟨rfl, he, typeEffects_mem (mem_running.1 he).1, hm⟩
+    exact ⟨rfl, he, typeEffects_mem (mem_running.1 he).1, Or.inl hm⟩
+  · obtain ⟨e, he, _, t, _, m, hm, rfl⟩ := mem_projSpecs.1 h
+    refine ⟨rfl, he, typeEffects_mem (mem_running.1 he).1, ?_⟩
+    rcases mem_projMods.1 hm with hm | hm
+    · exact Or.inl hm.1
+    · exact Or.inr ⟨hm.1, hm.2.2⟩
 
 /-- The three shapes of a reverse dependency. -/
 theorem rdeps_cases {m x : Node} (h : x ∈ rdeps u cfg d m) :
@@ -310,11 +339,20 @@ theorem rdeps_rank (hwf : RankWF u) (hun : UniqueAttrs u) {m x : Node} (hm : Has
     subst this
     unfold readable; rw [hmx]; simp
   · obtain ⟨_, _, he, hmod⟩ := spec_wf hs
-    have := reads_src (u := u) he hmod (attrMeta?_id hamx).symm
-    unfold readable; rw [← hsrc]; exact List.mem_append_right _ this
+    unfold readable; rw [← hsrc]
+    refine List.mem_append_right _ ?_
+    rcases hmod with hmod | ⟨_, hok⟩
+    · exact reads_src (u := u) he hmod (attrMeta?_id hamx).symm
+    · obtain ⟨_, hsrcb, hany⟩ := bspecOK_iff.1 hok
+      exact reads_buff (by rw [attrMeta?_id hamx]; exact hany) hsrcb
   · obtain ⟨_, _, he, hmod⟩ := spec_wf (List.mem_append_right _ hs)
-    have := reads_resist_mod (u := u) he hmod (attrMeta?_id hamx).symm hr h0
-    unfold readable; exact List.mem_append_right _ this
+    unfold readable
+    refine List.mem_append_right _ ?_
+    rcases hmod with hmod | ⟨hb, hok⟩
+    · exact reads_resist_mod (u := u) he hmod (attrMeta?_id hamx).symm hr h0
+    · obtain ⟨_, _, hany⟩ := bspecOK_iff.1 hok
+      refine reads_resist he hr h0 ?_
+      rw [attrMeta?_id hamx, hb, hany]; simp
 
 variable (u cfg d)
 
